@@ -597,7 +597,7 @@ func churn(r *rng.R, c cfg, level int, rounds int) {
 		if r.Chance(1, 16) {
 			ops = append(ops, g(0, r.Intn(base+1)), d(0, 1<<22+i), "S0")
 		}
-		if r.Chance(1, 64) {
+		if r.Chance(1, 64) && (m < 600 || r.Chance(1, 8)) {
 			ops = append(ops, "X0")
 		}
 	}
@@ -800,7 +800,7 @@ func main() {
 		r := rng.FromEnv(2)
 		cases := 260
 		if thorough {
-			cases = 4000
+			cases = 2500
 		}
 		for i := 0; i < cases; i++ {
 			kind := ks[i%len(ks)]
@@ -831,7 +831,7 @@ func main() {
 		r := rng.FromEnv(3)
 		levels := 4
 		if thorough {
-			levels = 9
+			levels = 7
 		}
 		for _, kind := range ks {
 			for _, hf := range []string{"fnv", "id", "const", "mod3", "class"} {
@@ -843,8 +843,8 @@ func main() {
 					}
 					m := c.cap << lvl
 					rounds := 3*m + 40
-					if (hf == "const" || hf == "class" || hf == "mod3") && lvl > 2 && !thorough {
-						continue // quadratic-time probe chains: keep the quick tier quick
+					if (hf == "const" || hf == "class" || hf == "mod3") && (lvl > 2 && !thorough || lvl > 4) {
+						continue // quadratic-time probe chains on the model side: keep the tiers within budget
 					}
 					churn(r, c, lvl, rounds)
 				}
@@ -861,7 +861,7 @@ func main() {
 			for _, kind := range ks {
 				c := defaults(kind)
 				c.hf = "fnv"
-				churn(r, c, 0, 200000)
+				churn(r, c, 0, 40000)
 			}
 		}
 	case "clients":
